@@ -170,6 +170,10 @@ def check(an, rep, tier):
         for vi, v in enumerate(specs.variants(q_)):
             for d in (2, 3):
                 r = an.run(q_, vi, d)
+                from ..engine import collect as _collect
+                from .common import S_RULES as _SR
+                _collect(rep, [r], _SR, wheres={'grid.ind_tt_to_qtt',
+                                                'grid.ind_qtt_to_tt'})
                 many = '[m,' in str(v.get(par))
                 for j, rv in enumerate(r.returns):
                     ok = rv.k == 'arr' and rv.dims is not None and \
